@@ -4,19 +4,21 @@
    predicate [laws].  Every theorem reads  [forall o, laws o -> ...]  -- nothing here is an axiom,
    and nothing is claimed about the executable secp256k1 instance of Crypto/Secp256k1Exec.v (that it
    satisfies [laws] is the standard mathematical fact listed in the trusted base).  The toy
-   instance at the end shows that [laws] is satisfiable (non-vacuity of all theorems).
+   instance at the end (Toy.ops, Toy.toy_laws) shows that [laws] is satisfiable.
 
    API (stable):
-     group_ops, laws, parity, inv_n, pub,
+     group_ops, laws, parity, inv_mod, inv_n, pub,
      esig (es_r, es_s, es_odd, es_ovf),
-     ecdsa_sign d z k      : option esig     one signing attempt with nonce k (None = retry), decred [sign]
-     ecdsa_sign_loop       : the retry loop over a nonce stream (decred signRFC6979)
-     ecdsa_recover z r s odd : option pt     decred RecoverCompact for recovery codes 0/1 (no overflow bit)
-     ecdsa_verify Q z r s  : bool            textbook verification
-   Theorems (all under [laws o]):
-     recover_sign, sign_verifies, sign_shape, recover_sound,
+     ecdsa_sign o d z k      : option esig   one signing attempt with nonce k (None = retry), decred [sign]
+     ecdsa_sign_loop         : the retry loop over a nonce stream (decred signRFC6979)
+     ecdsa_recover o z r s odd : option pt   decred RecoverCompact for recovery codes 0/1 (no overflow bit)
+     ecdsa_verify o Q z r s  : bool          textbook verification
+   Theorems (Section Theorems, all under [laws o]):
+     recover_sign, sign_inv, sign_shape, sign_verifies, recover_sound, recover_eq, verify_eq,
      recover_flip_parity_differs, recover_other_s_differs, recover_other_z_differs,
-     recover_malleable_twin, recover_other_r_only_if_forgery, sign_loop_some.                    *)
+     recover_malleable_twin, recover_other_r_only_if_forgery, sign_loop_some;
+     helpers: smulG_eq, smulG_zero, point_eq, pub_nz, cong (congruence mod n as a setoid), cong_lin.
+   Toy: toy_laws, toy_sign, toy_altered_R_recovers_signer.                                        *)
 From Coq Require Import ZArith Znumtheory Lia List Bool Setoid Morphisms.
 Import ListNotations.
 Local Open Scope Z_scope.
@@ -605,3 +607,177 @@ Section Theorems.
     destruct (ecdsa_sign o d z (nonce it)) eqn:E; [injection H as <-; eauto|]. eapply IH; eauto.
   Qed.
 End Theorems.
+
+From Coq Require Import Eqdep_dec.
+(* ------------------------------------------------------------------------------------------ *)
+(* A toy instance satisfying [laws]: Z/q written additively, q = 13.  Elements are the residues
+   0..12; the "x coordinate" of a is min(a, q-a) and the "y coordinate" is a itself, so that a and
+   -a share x and have y of opposite oddness (q is odd), as on an elliptic curve.  It exists only
+   to show that [laws] is satisfiable, i.e. that the theorems above are not vacuous.            *)
+Module Toy.
+  Definition q : Z := 13.
+  Definition tpt : Type := { a : Z | a mod q = a }.
+  Definition val (P : tpt) : Z := proj1_sig P.
+  Lemma mk_ok a : (a mod q) mod q = a mod q.
+  Proof. apply Z.mod_mod. discriminate. Qed.
+  Definition mk (a : Z) : tpt := exist _ (a mod q) (mk_ok a).
+
+  Lemma val_range P : 0 <= val P < q.
+  Proof. destruct P as [a Ha]. simpl. rewrite <- Ha. apply Z.mod_pos_bound. reflexivity. Qed.
+  Lemma val_mk a : val (mk a) = a mod q.
+  Proof. reflexivity. Qed.
+  Lemma tpt_eq P Q : val P = val Q -> P = Q.
+  Proof.
+    destruct P as [a Ha], Q as [b Hb]. simpl. intros ->. f_equal.
+    apply UIP_dec. apply Z.eq_dec.
+  Qed.
+  Lemma mk_val P : mk (val P) = P.
+  Proof. apply tpt_eq. rewrite val_mk. destruct P as [a Ha]. exact Ha. Qed.
+  Lemma mk_eq a b : a mod q = b mod q -> mk a = mk b.
+  Proof. intros E. apply tpt_eq. rewrite !val_mk. exact E. Qed.
+
+  Definition tzero : tpt := mk 0.
+  Definition tadd (P Q : tpt) : tpt := mk (val P + val Q).
+  Definition tneg (P : tpt) : tpt := mk (- val P).
+  Definition tsmul (k : Z) (P : tpt) : tpt := mk (k * val P).
+  Definition tG : tpt := mk 1.
+  Definition tis_zero (P : tpt) : bool := val P =? 0.
+  Definition tx (P : tpt) : Z := Z.min (val P) (q - val P).
+  Definition ty (P : tpt) : Z := val P.
+  Definition tlift (x : Z) (b : bool) : option tpt :=
+    if (1 <=? x) && (2 * x <? q) then Some (mk (if Bool.eqb (Z.odd x) b then x else q - x)) else None.
+
+  Definition ops : group_ops := {|
+    pt := tpt; zero := tzero; add := tadd; neg := tneg; smul := tsmul; G := tG; n := q;
+    is_zero := tis_zero; xcoord := tx; ycoord := ty; lift_x := tlift |}.
+
+  Lemma q_prime : prime q.
+  Proof.
+    apply prime_intro; [reflexivity|]. intros k Hk. unfold q in Hk.
+    assert (k = 1 \/ k = 2 \/ k = 3 \/ k = 4 \/ k = 5 \/ k = 6 \/ k = 7 \/ k = 8 \/ k = 9 \/ k = 10 \/ k = 11 \/ k = 12) by lia.
+    repeat (destruct H as [->|H]; [apply Zgcd_1_rel_prime; reflexivity|]). subst. apply Zgcd_1_rel_prime; reflexivity.
+  Qed.
+
+  Lemma nz_val P : P <> tzero <-> val P <> 0.
+  Proof.
+    split; intros H E; apply H.
+    - apply tpt_eq. rewrite E. reflexivity.
+    - rewrite E. reflexivity.
+  Qed.
+
+  Lemma odd_q_sub v : Z.odd (q - v) = negb (Z.odd v).
+  Proof. rewrite Z.odd_sub. reflexivity. Qed.
+
+  Lemma neg_val P : val (tneg P) = if val P =? 0 then 0 else q - val P.
+  Proof.
+    unfold tneg. rewrite val_mk. pose proof (val_range P) as R.
+    destruct (Z.eqb_spec (val P) 0) as [->|Hnz]; [reflexivity|].
+    replace (- val P) with (q - val P + (-1) * q) by lia. rewrite Z.mod_add by discriminate.
+    apply Z.mod_small. lia.
+  Qed.
+
+  Lemma l_assoc P Q R : tadd P (tadd Q R) = tadd (tadd P Q) R.
+  Proof. apply mk_eq. unfold tadd. rewrite !val_mk, Zplus_mod_idemp_r, Zplus_mod_idemp_l. f_equal. ring. Qed.
+  Lemma l_comm P Q : tadd P Q = tadd Q P.
+  Proof. apply mk_eq. f_equal. ring. Qed.
+  Lemma l_zero P : tadd tzero P = P.
+  Proof. rewrite <- (mk_val P) at 2. apply mk_eq. reflexivity. Qed.
+  Lemma l_neg P : tadd P (tneg P) = tzero.
+  Proof. apply mk_eq. unfold tneg. rewrite val_mk, Zplus_mod_idemp_r. f_equal. ring. Qed.
+  Lemma l_smul_add a b P : tsmul (a + b) P = tadd (tsmul a P) (tsmul b P).
+  Proof. apply mk_eq. unfold tsmul. rewrite !val_mk, <- Zplus_mod. f_equal. ring. Qed.
+  Lemma l_smul_mul a b P : tsmul (a * b) P = tsmul a (tsmul b P).
+  Proof. apply mk_eq. unfold tsmul. rewrite val_mk, Zmult_mod_idemp_r. f_equal. ring. Qed.
+  Lemma l_generated P : exists k, P = tsmul k tG.
+  Proof.
+    exists (val P). rewrite <- (mk_val P) at 1. apply mk_eq. unfold tG. rewrite val_mk. f_equal.
+    change (1 mod q) with 1. ring.
+  Qed.
+  Lemma l_order k : tsmul k tG = tzero <-> (q | k).
+  Proof.
+    unfold tsmul, tG, tzero. rewrite val_mk. change (1 mod q) with 1. rewrite Z.mul_1_r. split.
+    - intros E. apply (f_equal val) in E. rewrite !val_mk in E. apply Z.mod_divide; [discriminate|exact E].
+    - intros D. apply mk_eq. apply Z.mod_divide in D; [|discriminate]. rewrite D. reflexivity.
+  Qed.
+  Lemma l_is_zero P : tis_zero P = true <-> P = tzero.
+  Proof.
+    unfold tis_zero. rewrite Z.eqb_eq. split; [intros E; apply tpt_eq; rewrite E; reflexivity|intros ->; reflexivity].
+  Qed.
+  Local Opaque Z.sub.
+  Lemma l_lift x b P : tlift x b = Some P <-> (P <> tzero /\ tx P = x /\ Z.odd (ty P) = b).
+  Proof.
+    unfold tlift, tx, ty. pose proof (val_range P) as R. assert (Q13 : q = 13) by reflexivity. rewrite nz_val. split.
+    - destruct (Z.leb_spec 1 x) as [H1|]; cbn [andb]; [|discriminate].
+      destruct (Z.ltb_spec (2 * x) q) as [Hq|]; [|discriminate].
+      intros E. injection E as <-. rewrite val_mk.
+      destruct (Bool.eqb (Z.odd x) b) eqn:Eb.
+      + apply Bool.eqb_prop in Eb. assert (S : 0 <= x < q) by lia. rewrite (Z.mod_small x q S). repeat split; try lia. exact Eb.
+      + assert (S : 0 <= q - x < q) by lia. rewrite (Z.mod_small _ q S). repeat split; try lia.
+        rewrite odd_q_sub. apply Bool.eqb_false_iff in Eb. destruct (Z.odd x), b; try reflexivity; contradiction.
+    - intros (Hnz & Hx & Hb).
+      assert (Hx1 : 1 <= x) by lia.
+      assert (Hx2 : 2 * x < q) by lia.
+      apply Z.leb_le in Hx1. apply Z.ltb_lt in Hx2. rewrite Hx1, Hx2. cbn [andb]. f_equal.
+      rewrite <- (mk_val P) at 1. f_equal.
+      destruct (Z.le_ge_cases (val P) (q - val P)) as [C|C].
+      + rewrite Z.min_l in Hx by exact C. subst x. rewrite Hb, Bool.eqb_reflx. reflexivity.
+      + rewrite Z.min_r in Hx by lia. subst x. rewrite odd_q_sub, Hb.
+        destruct b; cbn [negb Bool.eqb]; lia.
+  Qed.
+  Local Transparent Z.sub.
+  Lemma l_xneg P : tx (tneg P) = tx P.
+  Proof. unfold tx. rewrite neg_val. pose proof (val_range P). destruct (Z.eqb_spec (val P) 0) as [->|]; lia. Qed.
+  Lemma l_parity_neg P : P <> tzero -> Z.odd (ty (tneg P)) = negb (Z.odd (ty P)).
+  Proof.
+    intros HP. apply nz_val in HP. unfold ty. rewrite neg_val.
+    destruct (Z.eqb_spec (val P) 0); [contradiction|]. apply odd_q_sub.
+  Qed.
+  Lemma l_range P : P <> tzero -> 0 <= tx P < 2 ^ 256 /\ 0 <= ty P < 2 ^ 256.
+  Proof. intros _. unfold tx, ty. pose proof (val_range P) as R. unfold q in *. lia. Qed.
+
+  Theorem toy_laws : laws ops.
+  Proof.
+    constructor.
+    - exact q_prime.
+    - reflexivity.
+    - exact l_assoc.
+    - exact l_comm.
+    - exact l_zero.
+    - exact l_neg.
+    - exact l_smul_add.
+    - exact l_smul_mul.
+    - exact l_generated.
+    - exact l_order.
+    - exact l_is_zero.
+    - exact l_lift.
+    - exact l_xneg.
+    - exact l_parity_neg.
+    - exact l_range.
+  Qed.
+
+  (* non-vacuity of the signing theorems: a concrete successful attempt without overflow *)
+  Example toy_sign : exists sg, ecdsa_sign ops 5 7 3 = Some sg /\ es_ovf sg = false /\
+      ecdsa_recover ops 7 (es_r sg) (es_s sg) (es_odd sg) = Some (pub ops 5).
+  Proof.
+    destruct (ecdsa_sign ops 5 7 3) as [sg|] eqn:E; [|vm_compute in E; discriminate].
+    exists sg. split; [reflexivity|].
+    assert (Hov : es_ovf sg = false) by (vm_compute in E; injection E as <-; reflexivity).
+    split; [exact Hov|]. apply (recover_sign ops toy_laws 5 7 3 sg); auto. discriminate.
+  Qed.
+
+  (* Altering R alone is NOT excluded by the group laws: in this instance (r, s, odd) = (3, 3, true) is
+     the signature of digest 7 under key 5 with nonce 3, and the altered triple (4, 3, true) recovers
+     the same key. *)
+  Example toy_altered_R_recovers_signer :
+    exists sg, ecdsa_sign ops 5 7 3 = Some sg /\ es_r sg = 3 /\ es_ovf sg = false /\
+      ecdsa_recover ops 7 4 (es_s sg) (es_odd sg) = Some (pub ops 5).
+  Proof.
+    destruct (ecdsa_sign ops 5 7 3) as [sg|] eqn:E; [|vm_compute in E; discriminate].
+    exists sg. split; [reflexivity|]. vm_compute in E. injection E as <-. cbn [es_r es_s es_odd es_ovf].
+    split; [reflexivity|]. split; [reflexivity|].
+    destruct (ecdsa_recover ops 7 4 3 true) as [Q|] eqn:R; [|vm_compute in R; discriminate].
+    f_equal. apply tpt_eq.
+    apply (f_equal (fun o => match o with Some p => val p | None => -1 end)) in R.
+    cbv beta iota in R. rewrite <- R. vm_compute. reflexivity.
+  Qed.
+End Toy.
